@@ -2,7 +2,7 @@
    This is what the OCaml driver calls; each command evaluates model functions on a case that the
    Python harness also runs on the rebuilt implementation. *)
 From OptreeModel Require Export Wire Flatten Unflatten Spec Ops Registry Pickle Accessor.
-From OptreeModel Require Ravel Dataclass Typing Faults Depth Alias.
+From OptreeModel Require Ravel Dataclass Typing Faults Depth Alias Conc.
 
 Definition bad : sexp := SL [SI 2].   (* undecodable input: a harness error, never a verdict *)
 
@@ -335,6 +335,17 @@ Definition cmd_alias (ks : list key) (p : list Alias.aop) : sexp :=
         snd (fold_left (fun '(u, acc) o => let u' := Alias.astep true s u o in (u', acc ++ [obs u'])) p (u0, [])))
   end.
 
+(* cmd 20: does each extracted lock program obey the discipline (Conc.wf [])? *)
+Definition dec_act (s : sexp) : option Conc.act :=
+  match s with
+  | SL [SI 0; SI l] => Some (Conc.ALock (Z.to_nat l))
+  | SL [SI 1; SI l] => Some (Conc.AUnlock (Z.to_nat l))
+  | SL [SI 2] => Some Conc.ACall
+  | SL [SI 3] => Some Conc.AWork
+  | _ => None
+  end.
+Definition cmd_wf (ps : list (list Conc.act)) : sexp := SL (map (fun p => enc_bool (Conc.wf [] p)) ps).
+
 Definition run (s : sexp) : sexp :=
   match s with
   | SL [SI 1; c; o] =>
@@ -427,6 +438,11 @@ Definition run (s : sexp) : sexp :=
     match dec_list dec_key ks, omapM dec_aop ops with
     | Some ks', Some p => cmd_alias ks' p
     | _, _ => bad
+    end
+  | SL [SI 20; SL ps] =>
+    match omapM (dec_list dec_act) ps with
+    | Some l => cmd_wf l
+    | None => bad
     end
   | SL [SI 17; c; o] =>
     match dec_cfg c, dec_obj o with
